@@ -196,6 +196,20 @@ func slotInfixFn(p *Parser, left ast.Expression) ast.Expression { return nil }
 //@ group ctxStable
 //@   atcall * [ctx.stable@C16] sameCtx(p.contextStack, old(p.contextStack))
 
+// Sub-statements are parsed through the statement slot (so that statement interceptors see every statement, also the
+// `if` of an else-if chain), sub-expressions through the expression slot: no parse function calls a concrete statement
+// parser or the base functions directly.
+//@ group viaSlot
+//@   atcall (*Parser).ParseLetStatement [via-slot@C04] false
+//@   atcall (*Parser).ParseFunctionStatement [via-slot@C04] false
+//@   atcall (*Parser).ParseReturnStatement [via-slot@C04] false
+//@   atcall (*Parser).ParseIfStatement [via-slot@C04] false
+//@   atcall (*Parser).ParseWhileStatement [via-slot@C04] false
+//@   atcall (*Parser).ParseForStatement [via-slot@C04] false
+//@   atcall (*Parser).ParseExpressionStatement [via-slot@C04] false
+//@   atcall baseParseStatement [via-slot@C04] false
+//@   atcall baseParseExpression [via-slot@C04] false
+
 // A statement-level result is never an interface holding a nil pointer.
 //@ group stmtResult
 //@   ensures [no-typed-nil@C11] result == nil || !isNil(result)
@@ -317,6 +331,7 @@ func lemma_parseFrame_trans(p *Parser) {
 //@   ensures [virtual@C02] implies(old(p.PeekToken.Type) != token.SEMICOLON, eq(p.CurrentToken, old(p.CurrentToken)) && eq(p.PeekToken, old(p.PeekToken)) && lexer.LexPos(p.lexer) == old(lexer.LexPos(p.lexer)))
 //@   ensures [asi.end@C02] implies(old(p.PeekToken.Type) == token.EOF || old(p.PeekToken.Type) == token.RBRACE, result)
 //@   ensures [asi.newline@C02] implies(old(p.PeekToken.AfterNewline) && startsStatement(old(p.PeekToken.Type)), result)
+//@   ensures [asi.smart@C13] implies(p.smartSemicolons && old(p.PeekToken.AfterNewline) && (old(p.PeekToken.Type) == token.LPAREN || old(p.PeekToken.Type) == token.LBRACKET), result && len(p.errors) == len(old(p.errors)))
 //@   ensures [asi.sameline@C02,C13] implies(!p.tolerantMode && !old(p.PeekToken.AfterNewline) && old(p.PeekToken.Type) != token.SEMICOLON && old(p.PeekToken.Type) != token.EOF && old(p.PeekToken.Type) != token.RBRACE, !result)
 
 // ---- the parse-function family ----
@@ -338,7 +353,7 @@ func lemma_parseFrame_trans(p *Parser) {
 
 //@ func (p *Parser) ParseLetStatement()
 //@   props C11 C16 C01
-//@   use parseFrame ctxStable
+//@   use parseFrame ctxStable viaSlot
 //@   ensures [wf@C11] implies(len(p.errors) == len(old(p.errors)) && result != nil, result.Name != nil && (result.Value == nil || !isNil(result.Value)))
 //@   ensures [node@C01,C08,C15] implies(result != nil, eq(result.Token, old(p.CurrentToken)) && result.Name != nil && result.Name.Value == result.Name.Token.Literal)
 //@   ensures [err-on-nil] implies(result == nil, len(p.errors) > len(old(p.errors)))
@@ -350,7 +365,7 @@ func lemma_parseFrame_trans(p *Parser) {
 
 //@ func (p *Parser) ParseFunctionStatement()
 //@   props C11 C16 C01
-//@   use parseFrame
+//@   use parseFrame viaSlot
 //@   ensures [wf@C11] implies(len(p.errors) == len(old(p.errors)) && result != nil, result.Name != nil && result.Body != nil && forall(0, len(result.Parameters), func(k int) bool { return result.Parameters[k] != nil }))
 //@   ensures [node@C01,C08,C15] implies(result != nil, eq(result.Token, old(p.CurrentToken)) && result.Name != nil && result.Name.Value == result.Name.Token.Literal && result.Body == callResult[*ast.BlockStatement]("(*Parser).ParseBlockStatement", 0))
 //@   atcall (*Parser).ParseBlockStatement [ctx.function@C16] sameCtx(p.contextStack, push(old(p.contextStack), FunctionContext))
@@ -368,7 +383,7 @@ func lemma_parseFrame_trans(p *Parser) {
 // Restricted production (ECMA-262 12.10.1): no operand is parsed when the next token is on a new line.
 //@ func (p *Parser) ParseReturnStatement()
 //@   props C11 C16 C02
-//@   use parseFrame ctxStable
+//@   use parseFrame ctxStable viaSlot
 //@   ensures [wf@C11] implies(len(p.errors) == len(old(p.errors)) && result != nil, result.ReturnValue == nil || !isNil(result.ReturnValue))
 //@   ensures [restricted@C02] implies(old(p.PeekToken.AfterNewline), ncalls("(*Parser).ParseExpression") == 0)
 //@   ensures [operand@C02] implies(!old(p.PeekToken.AfterNewline) && old(p.PeekToken.Type) != token.SEMICOLON && old(p.PeekToken.Type) != token.EOF && old(p.PeekToken.Type) != token.RBRACE, ncalls("(*Parser).ParseExpression") == 1)
@@ -376,28 +391,28 @@ func lemma_parseFrame_trans(p *Parser) {
 
 //@ func (p *Parser) ParseIfStatement()
 //@   props C11 C16 C01
-//@   use parseFrame ctxStable
+//@   use parseFrame ctxStable viaSlot
 //@   ensures [wf@C11] implies(len(p.errors) == len(old(p.errors)) && result != nil, !isNil(result.Condition) && !isNil(result.ThenBranch) && (result.ElseBranch == nil || !isNil(result.ElseBranch)))
 //@   ensures [node@C01,C08,C15] implies(result != nil, eq(result.Token, old(p.CurrentToken)))
 //@   ensures [err-on-nil] implies(result == nil, len(p.errors) > len(old(p.errors)))
 
 //@ func (p *Parser) ParseWhileStatement()
 //@   props C11 C16 C01
-//@   use parseFrame ctxStable
+//@   use parseFrame ctxStable viaSlot
 //@   ensures [wf@C11] implies(len(p.errors) == len(old(p.errors)) && result != nil, !isNil(result.Condition) && !isNil(result.Body))
 //@   ensures [node@C01,C08,C15] implies(result != nil, eq(result.Token, old(p.CurrentToken)))
 //@   ensures [err-on-nil] implies(result == nil, len(p.errors) > len(old(p.errors)))
 
 //@ func (p *Parser) ParseForStatement()
 //@   props C11 C16 C01
-//@   use parseFrame ctxStable
+//@   use parseFrame ctxStable viaSlot
 //@   ensures [wf@C11] implies(len(p.errors) == len(old(p.errors)) && result != nil, (result.Init == nil || !isNil(result.Init)) && (result.Condition == nil || !isNil(result.Condition)) && (result.Update == nil || !isNil(result.Update)) && !isNil(result.Body))
 //@   ensures [node@C01,C08,C15] implies(result != nil, eq(result.Token, old(p.CurrentToken)))
 //@   ensures [err-on-nil] implies(result == nil, len(p.errors) > len(old(p.errors)))
 
 //@ func (p *Parser) ParseBlockStatement()
 //@   props C11 C16 C13 C01 C15
-//@   use parseFrame
+//@   use parseFrame viaSlot
 //@   atcall slotStmtFn [ctx.block@C16] sameCtx(p.contextStack, push(old(p.contextStack), BlockContext))
 //@   loop 1 invariant [frame] parserInv(p) && sameCtx(p.contextStack, push(old(p.contextStack), BlockContext)) && p.currentExpressionPrecedence == old(p.currentExpressionPrecedence) && isPrefixErr(old(p.errors), p.errors)
 //@   loop 1 invariant [block] block != nil && forall(0, len(block.Statements), func(i int) bool { return !isNil(block.Statements[i]) })
@@ -408,11 +423,11 @@ func lemma_parseFrame_trans(p *Parser) {
 
 //@ func (p *Parser) ParseStatement()
 //@   props C11 C16
-//@   use parseFrame stmtResult ctxStable
+//@   use parseFrame stmtResult ctxStable viaSlot
 
 //@ func (p *Parser) ParseExpressionStatement()
 //@   props C11 C16
-//@   use parseFrame ctxStable
+//@   use parseFrame ctxStable viaSlot
 //@   ensures [wf@C11] implies(len(p.errors) == len(old(p.errors)) && result != nil, !isNil(result.Expression))
 //@   ensures [err-on-nil] implies(result == nil, len(p.errors) > len(old(p.errors)))
 
@@ -431,12 +446,12 @@ func lemma_parseFrame_trans(p *Parser) {
 
 //@ func (p *Parser) ParseExpression()
 //@   props C11 C16 C02
-//@   use parseFrame ctxStable exprResult
+//@   use parseFrame ctxStable exprResult viaSlot
 //@   ensures [level@C02] ncalls("slotExprFn") == 1 && callArg[int]("slotExprFn", 0, 1) == LOWEST && callArg[*Parser]("slotExprFn", 0, 0) == p && result == callResult[ast.Expression]("slotExprFn", 0)
 
 //@ func (p *Parser) ParseExpressionWithPrecedence(precedence)
 //@   props C11 C16 C02
-//@   use parseFrame ctxStable exprResult
+//@   use parseFrame ctxStable exprResult viaSlot
 //@   ensures [level@C02] ncalls("slotExprFn") == 1 && callArg[int]("slotExprFn", 0, 1) == precedence && callArg[*Parser]("slotExprFn", 0, 0) == p && result == callResult[ast.Expression]("slotExprFn", 0)
 
 // The climbing loop. It continues only while the next token binds strictly tighter than the requested level (left
@@ -447,7 +462,7 @@ func lemma_parseFrame_trans(p *Parser) {
 //@   use parseFrame ctxStable infixResult
 //@   atcall (*Parser).ParseInfixExpression [climb.strict@C02] p.PeekToken.Type != token.SEMICOLON && precedence < specLevel(p.precedences, p.PeekToken.Type)
 //@   atcall (*Parser).ParseInfixExpression [smart.nocut@C13] !(p.smartSemicolons && p.PeekToken.AfterNewline && (p.PeekToken.Type == token.LPAREN || p.PeekToken.Type == token.LBRACKET))
-//@   atcall (*Parser).ParseInfixExpression [restricted.postfix@C02] !(p.PeekToken.AfterNewline && (p.PeekToken.Type == token.INCREMENT || p.PeekToken.Type == token.DECREMENT))
+//@   atcall (*Parser).ParseInfixExpression [restricted.postfix@C02,C13] !(p.PeekToken.AfterNewline && (p.PeekToken.Type == token.INCREMENT || p.PeekToken.Type == token.DECREMENT))
 //@   ensures [climb.exit@C02,C13] p.PeekToken.Type == token.SEMICOLON || precedence >= specLevel(p.precedences, p.PeekToken.Type) || (p.smartSemicolons && p.PeekToken.AfterNewline && (p.PeekToken.Type == token.LPAREN || p.PeekToken.Type == token.LBRACKET)) || (p.PeekToken.AfterNewline && (p.PeekToken.Type == token.INCREMENT || p.PeekToken.Type == token.DECREMENT))
 //@   loop 1 invariant [frame] parserInv(p) && sameCtx(p.contextStack, old(p.contextStack)) && p.currentExpressionPrecedence == old(p.currentExpressionPrecedence) && isPrefixErr(old(p.errors), p.errors)
 //@   loop 1 invariant [left@C11] implies(isNil(left), len(p.errors) > len(old(p.errors)) || isNil(old(left)))
@@ -502,7 +517,7 @@ func lemma_parseFrame_trans(p *Parser) {
 
 //@ func (p *Parser) ParseUnaryExpression()
 //@   props C11 C16 C02 C01
-//@   use parseFrame ctxStable exprResult
+//@   use parseFrame ctxStable exprResult viaSlot
 //@   ensures [wf@C11] implies(len(p.errors) == len(old(p.errors)), !isNil(result.(*ast.UnaryExpression).Right))
 //@   ensures [operand.level@C02] ncalls("(*Parser).NextToken") == 1 && ncalls("slotExprFn") == 1 && callOrder("(*Parser).NextToken", 0, "slotExprFn", 0) && callArg[int]("slotExprFn", 0, 1) == UNARY && callArg[*Parser]("slotExprFn", 0, 0) == p
 //@   ensures [node@C01,C08,C15] isType[*ast.UnaryExpression](result) && !isNil(result) && eq(result.(*ast.UnaryExpression).Token, old(p.CurrentToken)) && result.(*ast.UnaryExpression).Operator == old(p.CurrentToken.Literal) && result.(*ast.UnaryExpression).Right == callResult[ast.Expression]("slotExprFn", 0)
@@ -537,7 +552,7 @@ func lemma_parseFrame_trans(p *Parser) {
 
 //@ func (p *Parser) ParseFunctionExpression()
 //@   props C11 C16 C13 C01
-//@   use parseFrame exprResult
+//@   use parseFrame exprResult viaSlot
 //@   ensures [wf@C11] implies(len(p.errors) == len(old(p.errors)) && !isNil(result), result.(*ast.FunctionExpression).Body != nil && forall(0, len(result.(*ast.FunctionExpression).Parameters), func(k int) bool { return result.(*ast.FunctionExpression).Parameters[k] != nil }))
 //@   ensures [node@C01,C08,C15] implies(!isNil(result), isType[*ast.FunctionExpression](result) && eq(result.(*ast.FunctionExpression).Token, old(p.CurrentToken)) && result.(*ast.FunctionExpression).Body == callResult[*ast.BlockStatement]("(*Parser).ParseBlockStatement", 0))
 //@   atcall (*Parser).ParseBlockStatement [ctx.function@C16] sameCtx(p.contextStack, push(old(p.contextStack), FunctionContext))
@@ -548,7 +563,7 @@ func lemma_parseFrame_trans(p *Parser) {
 // per-parser table while the operator is the current token.
 //@ func (p *Parser) ParseBinaryExpression(left)
 //@   props C11 C16 C02 C01 C05
-//@   use parseFrame ctxStable exprResult infixResult
+//@   use parseFrame ctxStable exprResult infixResult viaSlot
 //@   ensures [wf@C11] implies(len(p.errors) == len(old(p.errors)) && !isNil(left), !isNil(result.(*ast.BinaryExpression).Left) && !isNil(result.(*ast.BinaryExpression).Right))
 //@   ensures [operand.level@C02,C03,C05] ncalls("(*Parser).NextToken") == 1 && ncalls("slotExprFn") == 1 && callOrder("(*Parser).NextToken", 0, "slotExprFn", 0) && callArg[int]("slotExprFn", 0, 1) == specLevel(p.precedences, old(p.CurrentToken.Type)) && callArg[*Parser]("slotExprFn", 0, 0) == p
 //@   ensures [node@C01,C08,C15] isType[*ast.BinaryExpression](result) && !isNil(result) && eq(result.(*ast.BinaryExpression).Token, old(p.CurrentToken)) && result.(*ast.BinaryExpression).Operator == old(p.CurrentToken.Literal) && result.(*ast.BinaryExpression).Left == left && result.(*ast.BinaryExpression).Right == callResult[ast.Expression]("slotExprFn", 0)
@@ -577,7 +592,7 @@ func lemma_parseFrame_trans(p *Parser) {
 
 //@ func (p *Parser) ParseMemberExpression(left)
 //@   props C11 C16 C02 C01
-//@   use parseFrame ctxStable exprResult infixResult
+//@   use parseFrame ctxStable exprResult infixResult viaSlot
 //@   ensures [wf@C11] implies(len(p.errors) == len(old(p.errors)) && !isNil(left), !isNil(result.(*ast.MemberExpression).Object) && !isNil(result.(*ast.MemberExpression).Property))
 //@   ensures [operand.level@C02] ncalls("(*Parser).NextToken") == 1 && ncalls("slotExprFn") == 1 && callOrder("(*Parser).NextToken", 0, "slotExprFn", 0) && callArg[int]("slotExprFn", 0, 1) == MEMBER && callArg[*Parser]("slotExprFn", 0, 0) == p
 //@   ensures [node@C01,C08,C15] isType[*ast.MemberExpression](result) && !isNil(result) && eq(result.(*ast.MemberExpression).Token, old(p.CurrentToken)) && result.(*ast.MemberExpression).Object == left && !result.(*ast.MemberExpression).Computed && result.(*ast.MemberExpression).Property == callResult[ast.Expression]("slotExprFn", 0)
@@ -598,7 +613,7 @@ func lemma_parseFrame_trans(p *Parser) {
 
 //@ func (p *Parser) ParseProgram()
 //@   props C11 C16
-//@   use parseFrame
+//@   use parseFrame viaSlot
 //@   atcall slotStmtFn [ctx.stable@C16] sameCtx(p.contextStack, old(p.contextStack))
 //@   loop 1 invariant [frame] parserInv(p) && sameCtx(p.contextStack, old(p.contextStack)) && p.currentExpressionPrecedence == old(p.currentExpressionPrecedence) && isPrefixErr(old(p.errors), p.errors)
 //@   loop 1 invariant [program] program != nil && forall(0, len(program.Statements), func(i int) bool { return !isNil(program.Statements[i]) })
